@@ -309,9 +309,10 @@ theorem hsEll_sqrt_pos (sqrt : K → K) (hsq : SqrtSpec sqrt) (r0 a : V3 K) (hr0
 /-- a contact is reported iff the solid ellipsoid and the open half space share a point; `T = ~X1*X2` maps
 ellipsoid coordinates to half-space coordinates -/
 theorem hsEllipsoid_contact_iff_overlap (sqrt : K → K) (hsq : SqrtSpec sqrt) (i1 i2 : Nat) (X1 X2 : Xf K) (a : V3 K)
-    (ha : a.x ≠ 0 ∧ a.y ≠ 0 ∧ a.z ≠ 0) (hr0 : V3.dot (Xf.invComp X1 X2).R.r0 (Xf.invComp X1 X2).R.r0 = 1) :
+    (ha : a.x ≠ 0 ∧ a.y ≠ 0 ∧ a.z ≠ 0) (hR1 : IsRot X1.R) (hR2 : IsRot X2.R) :
     (hsEllipsoid sqrt i1 i2 X1 X2 a).isSome = true ↔
       ∃ x : V3 K, 0 ≤ Ell.value a x ∧ 0 < (Xf.app (Xf.invComp X1 X2) x).x := by
+  have hr0 := (isRot_invComp hR1 hR2).r00
   rw [hsEllipsoid_some_iff, (hsEllLocal_is_support sqrt _ a).2.1]
   generalize Xf.invComp X1 X2 = T at hr0 ⊢
   obtain ⟨hs, h0⟩ := hsEll_sqrt_pos sqrt hsq T.R.r0 a hr0 ha
@@ -476,6 +477,10 @@ theorem detect_registered (sqrt : K → K) (convex : Placed K → Placed K → O
   cases sa <;> cases sb <;> simp [registered]
 
 /-! ## non-vacuity -/
+
+/-- the convex contract is satisfiable (e.g. by an algorithm that never reports) -/
+example : ConvexContract (K := ℚ) (fun _ _ => none) := ⟨by intros; rfl, by intro _ _ _ h; simp at h⟩
+
 
 /-- the identity is a rotation, so `IsRot` hypotheses are satisfiable -/
 example : IsRot (⟨⟨1, 0, 0⟩, ⟨0, 1, 0⟩, ⟨0, 0, 1⟩⟩ : M3 ℚ) := by
